@@ -12,3 +12,42 @@ def fill(claim, NA):
 		  "Trusted: Lean kernel, propext/Classical.choice/Quot.sound, the harness. Modelled not verified: wagner_whitin.py:126-159 and "
 		  "helpers.ensure_list_for_time_periods (Model/WW.lean), tied by exact correspondence in the exact-arithmetic regime (small integer/"
 		  "dyadic inputs). Binary64 rounding for non-dyadic inputs is outside the model.")
+
+	SIMNOTE = ("Trusted: Lean kernel + propext/Classical.choice/Quot.sound; harness (generator, canonicaliser, comparator); CPython/NumPy. "
+			   "Modelled not verified: sim.py/policy.py/node_state_vars.py for single-product networks (Model/Sim.lean, edge-record state), tied by exact "
+			   "field-by-field equality of whole trajectories on generated networks in the exact-arithmetic regime. Theorems are kernel / single-edge / "
+			   "single-node level for arbitrary inputs; the lift to whole networks by induction over visiting sequences is carried by the "
+			   "correspondence + the executable identities evaluated on every Python trace (stated in DESIGN.md as the open proof target). "
+			   "Multi-product BOM shares, cost functions, order_quantity_override and BEBS are outside the model.")
+	claim('C01',
+		  "Theorems (Props/C01.lean): every kernel that moves units conserves them for all inputs: receipt (recvShip_conserves), production bound "
+		  "(producible_le), propagation into the customer's pipeline, order placement (internal / external supplier), next-period carry-over "
+		  "(nextEdge_conserves, pipeline shift and TP freeze preserve totals) and the composed one-period theorem for an internal edge "
+		  "edge_period_conserves: for ANY order quantity, on-hand and disruption flags, shipped = received + in transit + held at door, and ordered = "
+		  "shipped + backordered + held. Tie: exact trajectory correspondence (13 conservation-relevant fields incl. the ghost 'produced' quantity "
+		  "recorded by wrapping _raw_materials_to_finished_goods) + the five conservation identities evaluated on every Python trace.", SIMNOTE)
+	claim('C02',
+		  "Theorems (Props/C02.lean): shipOne_accounting(_ext), shipOne_nonneg (no negative counts, never ships more than on-hand + held), "
+		  "shipAll_spec / bo_matches_il_kernel: for every list of successors and every pattern of shipment pauses, total backorders after the loop = "
+		  "negative part of the new inventory level given the same before; shipAll_on_hand; fill_rate_def, fill_rate_unit ([0,1]). Tie: exact "
+		  "trajectory correspondence + predicates (BO = IL^-, non-negativity of every count, ship bound, DMFS<=demand, fill-rate formula) on every Python trace.", SIMNOTE)
+	claim('C03',
+		  "Theorems (Props/C03.lean): on_order_exact_period (ledger on-order − (orders travelling + supplier backorders + held + in transit) is invariant "
+		  "over a full period of an internal edge for any order, on-hand and SP/TP/RP flags), on_order_exact_ext, orders_arrive (an order written at slot "
+		  "OLT is read from slot 0 after exactly OLT shifts), shiftOrders_iter, shiftPipe_get, tp_freezes, rp_releases. Tie: exact trajectory "
+		  "correspondence with SLT 0-3 × OLT 0-2 × disruption type cells + on-order / order-arrival / shipment-arrival predicates on every Python trace.", SIMNOTE)
+	claim('C04',
+		  "Theorems (Props/C04.lean): bs_rule, ebs_rule, sS_rule, rQ_rule, fq_rule, capped_rule (None and 0 = no capacity), placeOrders_follows_policy "
+		  "(the model's order = capped(policy(IP observed)); identity under an OP disruption), ipObserved_local. Tie: (a) pure policy function vs "
+		  "Policy.get_order_quantity exactly incl. boundaries; (b) model kernel orderQty evaluated on the state the real simulator observed, every node and "
+		  "period; (c) echelon vs converted-local base-stock trajectories on serial systems (OLT=0) Python-vs-Python — the equivalence itself is not yet a "
+		  "theorem (labelled test).", SIMNOTE)
+	claim('C05',
+		  "Theorems (Props/C05.lean): period_costs_def (each component as a function of the reported state, in-transit default only for None), "
+		  "in_transit_rate_zero_is_not_none, total_is_sum, total_append. Tie: model cost kernel evaluated on every end-of-period state the real simulator "
+		  "reported (exact), simulation() return value vs sum, run_multiple_trials mean/SEM vs recorded per-trial totals (Python-side).", SIMNOTE)
+	claim('C06',
+		  "The Lean model is the independent reference implementation of the documented sequence of events. Theorems (Props/C06.lean): step_batch (every split), "
+		  "trace_length, resolve_rename (any injective renumbering leaves what the simulator sees unchanged), op_skips_order, sp_holds, backorders_first, "
+		  "tp_freezes, rp_releases. Tie: full-trajectory exact equality (all 24 documented fields, both DFS visiting sequences, returned total) + six "
+		  "Python-vs-Python variants per case (step-wise, re-run, relabel fresh / reindex_nodes, consistency_checks E/N).", SIMNOTE)
